@@ -5,6 +5,9 @@ virtual client thread over a stub session whose execute_async builds REAL Respon
 and, per statement, raises synchronously, completes before returning (ok / error) or completes
 later from a virtual completer thread (ok / error).  Behaviour vectors, concurrency levels,
 fail-fast and variants are enumerated completely; schedules up to the preemption bound.
+The stub keeps a log (thread, event, statement) of failures / execute_async entries / finished
+completions; from it the oracle derives which failures can be 'the first' and fail-fast must
+raise one of those (exactly one when the failures are ordered, e.g. all in the caller's thread).
 """
 import itertools
 
@@ -20,12 +23,17 @@ META = {
     'level': 'model_checking',
     'engine': 'S',
     'technique': 'stateless schedule exploration (preemption-bounded, line-granular) over exhaustive behaviour vectors, on the real concurrent executors and ResponseFuture callbacks',
-    'text': 'n <= 2 statements with every behaviour vector over {raises synchronously, completes before returning ok/error, completes '
-            'later from another thread ok/error}, n = 3 over a 3-behaviour subset (thorough: all, and n = 4 subset), concurrency 1..n, '
+    'text': 'n <= 3 statements with every behaviour vector over {raises synchronously, completes before returning ok/error, completes '
+            'later from another thread ok/error} (n = 3: concurrency 2; thorough: concurrency 1..3, and n = 4 over a 3-behaviour subset), '
+            'plus every vector over the three caller-thread behaviours for n <= 4 (thorough 5); concurrency 1..n, '
             'fail-fast on/off, variants list / generator / async-future; one client thread and one completer thread (thorough: two), '
             'scheduling points at every line of cassandra/concurrent.py and of ResponseFuture.add_callback(s)/add_errback/'
             'clear_callbacks/_set_final_*; preemption bound 1 (thorough 2).  Oracle: one result per statement at its own position, '
-            'peak in-flight <= concurrency, fail-fast raises a real failure (list: the first to complete), async future completed '
+            'peak in-flight <= concurrency, fail-fast raises THE FIRST failure: the stub logs every failure, execute_async entry and '
+            'returned completion with its thread in the serialised order; a failure is certainly later than another when it follows it '
+            'in the same thread, or after that thread came back to the stub; the raised failure must be one with no certainly-earlier '
+            'failure (unique when all failures happen in one thread or do not overlap; generator variant: the lowest failed position is '
+            'accepted as well, results being consumed in input order); async future completed '
             'exactly once with no InvalidStateError anywhere, no deadlock.',
     'note': 'The stub session only constructs futures and completes them through the real _set_final_result/_set_final_exception; '
             'Condition/Lock/Event are the scheduler-aware virtual primitives.',
@@ -140,6 +148,7 @@ class CountingFuture(_RealFuture):
         return _RealFuture.set_exception(self, e)
 
 
+@sched.gc_quiet
 def harness(params, prefix, part):
     beh, conc, ff, variant, ncompleters = params['beh'], params['conc'], params['ff'], params['variant'], params.get('completers', 1)
     s = sched.Scheduler(prefix, focus=FOCUS, focus_files=('cassandra/concurrent.py',), horizon=8000)
@@ -277,21 +286,36 @@ def harness(params, prefix, part):
     return s
 
 
+SYNC = ['raise', 'now_ok', 'now_err']
+
+
 def configs(ctx):
     out = []
+    seen = set()
+
+    def add(beh, conc, **extra):
+        for ff in (False, True):
+            for variant in ('list', 'gen', 'async'):
+                key = (tuple(beh), conc, ff, variant, extra.get('completers', 1))
+                if key not in seen:
+                    seen.add(key)
+                    out.append(dict({'beh': list(beh), 'conc': conc, 'ff': ff, 'variant': variant}, **extra))
+
     sub3 = ['now_ok', 'later_ok', 'later_err']
     for n in (1, 2, 3) + ((4,) if ctx.thorough else ()):
-        if n <= 2:
+        if n <= 3:
             vecs = list(itertools.product(BEH, repeat=n))
-        elif n == 3:
-            vecs = list(itertools.product(BEH if ctx.thorough else sub3, repeat=n))
         else:
-            vecs = list(itertools.product(['now_ok', 'later_ok', 'later_err'], repeat=n))
+            vecs = list(itertools.product(sub3, repeat=n))
         for beh in vecs:
             for conc in (range(1, n + 1) if (n <= 2 or ctx.thorough) else (2,)):
-                for ff in (False, True):
-                    for variant in ('list', 'gen', 'async'):
-                        out.append({'beh': list(beh), 'conc': conc, 'ff': ff, 'variant': variant})
+                add(beh, conc)
+    # everything completes or fails in the caller's thread (one schedule each): the order of the failures is the
+    # statement order, so the first failure is unique for every variant
+    for n in (3, 4) + ((5,) if ctx.thorough else ()):
+        for beh in itertools.product(SYNC, repeat=n):
+            for conc in range(1, n + 1):
+                add(beh, conc)
     if ctx.thorough:
         out += [dict(c, completers=2) for c in out if sum(1 for b in c['beh'] if b.startswith('later')) >= 2 and len(c['beh']) <= 3]
     return out
@@ -308,7 +332,8 @@ def run(ctx):
     ctx.count('states', ctx.counters.get('executions', 0))
     ctx.cov['preemption_bound'] = bound
     ctx.cov['rule'] = ('every configuration (behaviour vector, concurrency, fail-fast, variant) x every schedule within the preemption '
-                       'bound; non-trivial = execution with a non-default scheduling choice')
+                       'bound; non-trivial = execution with a non-default scheduling choice; first_failure_judged = fail-fast executions whose '
+                       'raised failure was compared with the admissible first failures, first_failure_unique = those with exactly one admissible')
     ctx.cov['exhaustive'] = True
 
 
